@@ -139,7 +139,7 @@ class ScalarOp(diff.DiffOperator, operator.CombinableOperator):
 
         # every pair for which a second-order array was formed is a pair of the combined operator
         order2 = order2 | set(d2arrs)
-        return ScalarOp(
+        new = ScalarOp(
             arrs[0],
             arrs[1],
             darrs=darrs,
@@ -148,6 +148,9 @@ class ScalarOp(diff.DiffOperator, operator.CombinableOperator):
             order2=order2,
             **kwargs,
         )
+        # cross derivatives with variables carried by the state are formed if either operand asked for them
+        new.auto_cross_derivatives = op1.auto_cross_derivatives or op2.auto_cross_derivatives
+        return new
 
 
 #
